@@ -538,29 +538,31 @@ example : ArrModel.Gen.Core.Array_atleast (⟨[1, 2, 3], [3]⟩ : Arr Nat) 3 = .
 /-! ### `expand_dims`, `squeeze` as translated from `src/core/operations/axis.rs` (phase 2) -/
 
 open ArrModel.Gen.Core in
-/-- **expand_dims (translated source)** keeps the element list -/
-theorem gen_expand_dims_elems (a r : Arr α) (axes : List Int) (h : Array_expand_dims a axes = .ok r) : r.elems = a.elems := by
-  rw [expand_dims_eq] at h; exact expandDims_elems a r axes h
+/-- **expand_dims (translated source)** keeps the element list (through the equivalence up to the error variant) -/
+theorem gen_expand_dims_elems (a r : Arr α) (axes : List Int) (h : Array_expand_dims a axes = .ok r) : r.elems = a.elems :=
+  expandDims_elems a r axes (Res.sameClass_ok_left (h ▸ expand_dims_sim a axes))
 
 open ArrModel.Gen.Core in
-/-- … and on a well-formed array is the spec'd success or `AxisOutOfBounds`, never a panic -/
+/-- … and on a well-formed array is the spec'd success or an error, never a panic -/
 theorem gen_expand_dims_total (a : Arr α) (axes : List Int) (hwf : a.WF) :
-    (∃ r, Array_expand_dims a axes = .ok r) ∨ Array_expand_dims a axes = .err .AxisOutOfBounds := by
-  rw [expand_dims_eq]; exact expandDims_total a axes hwf
+    (∃ r, Array_expand_dims a axes = .ok r) ∨ ∃ e, Array_expand_dims a axes = .err e := by
+  rcases expandDims_total a axes hwf with ⟨r, hr⟩ | he
+  · exact .inl ⟨r, Res.sameClass_ok_right (hr ▸ expand_dims_sim a axes)⟩
+  · exact .inr (Res.sameClass_err_right (he ▸ expand_dims_sim a axes))
 
 open ArrModel.Gen.Core in
 /-- **squeeze (translated source)** keeps the element list -/
-theorem gen_squeeze_elems (a r : Arr α) (axes : Option (List Int)) (h : Array_squeeze a axes = .ok r) : r.elems = a.elems := by
-  rw [squeeze_eq] at h; exact squeeze_elems a r axes h
+theorem gen_squeeze_elems (a r : Arr α) (axes : Option (List Int)) (h : Array_squeeze a axes = .ok r) : r.elems = a.elems :=
+  squeeze_elems a r axes (Res.sameClass_ok_left (h ▸ squeeze_sim a axes))
 
 open ArrModel.Gen.Core in
 theorem gen_squeeze_none_shape (a : Arr α) (hwf : a.WF) :
-    Array_squeeze a none = .ok ⟨a.elems, a.shape.filter (fun d => d != 1)⟩ := by
-  rw [squeeze_eq]; exact squeeze_none_shape a hwf
+    Array_squeeze a none = .ok ⟨a.elems, a.shape.filter (fun d => d != 1)⟩ :=
+  Res.sameClass_ok_right (squeeze_none_shape a hwf ▸ squeeze_sim a none)
 
 open ArrModel.Gen.Core in
-theorem gen_squeeze_total (a : Arr α) (axes : Option (List Int)) (hwf : a.WF) : Array_squeeze a axes ≠ .panic := by
-  rw [squeeze_eq]; exact squeeze_total a axes hwf
+theorem gen_squeeze_total (a : Arr α) (axes : Option (List Int)) (hwf : a.WF) : Array_squeeze a axes ≠ .panic :=
+  Res.sameClass_not_panic (squeeze_sim a axes) (squeeze_total a axes hwf)
 
 example : ArrModel.Gen.Core.Array_squeeze (⟨[1, 2, 3], [1, 3, 1]⟩ : Arr Nat) none = .ok ⟨[1, 2, 3], [3]⟩ := by decide
 
